@@ -3,7 +3,13 @@ from vf.core import Suite, coq_N, coq_bool, coq_list
 from props import porc_gen as pg
 
 ID = "C28"
-THEOREMS = []
+THEOREMS = [
+    "C28_write_tree_flat_partial", "C28_write_tree_flat_git_partial", "C28_ita_refuted",
+    "C28_rm_file_eq", "C28_rm_dir_missing_refuted", "C28_rm_untracked_dir_refuted",
+    "C28_mv_eq_partial", "C28_mv_stat_refuted", "C28_mv_mkdir_refuted",
+    "C28_clean_d_eq_partial", "C28_clean_subdir_refuted",
+    "C28_add_ignored_refuted", "C28_add_filemode_refuted", "C28_add_replaced_dir_refuted",
+]
 MODEL_FILES = ["Status.v", "IndexOps.v"]
 MODELLED = ("worktree_status.go doAdd / doAddDirectory / doAddFile (file, directory, All), doUpdateFileToIndex (mode, size, "
             "mtime from the file), Remove / doRemoveDirectory / doRemoveFile, Move; worktree.go Clean / doClean; "
@@ -98,6 +104,12 @@ def deviation(c):
         if any(scope(q) and isdir(q) for q in idx):
             return "add-file-replaced-by-dir"
         if op == "add" and p in wt and p not in idx and pg.ignored(st, p):
+            return "add-ignored-explicit"
+        if op == "add" and isdir(p) and not any(under(p, q) for q in idx) and all(pg.ignored(st, q) for q in wt if under(p, q)):
+            return "add-ignored-explicit"
+        if any(scope(q) and q not in wt and any(under(x, q) for x in wt) for q in idx):
+            return "add-dir-replaced-by-file"
+        if op == "add" and isdir(p) and pg.ignored(st, p + "/\x01"):
             return "add-ignored-explicit"
     if op == "rm" and isdir(p) and any(under(p, q) and q not in wt for q in idx):
         return "rm-dir-missing-file"
@@ -256,6 +268,8 @@ class Main(Suite):
                     st = pg.state_of(c)
                     items.append(x)
                 return items
+            if c["op"] == "add" and c["path"] not in pg.state_of(c)["wt"] and pg.ignored(pg.state_of(c), c["path"] + "/\x01"):
+                continue   # an ignored directory named explicitly: the verdict for directories is not part of the state
             if c["op"] == "commit":
                 continue   # S's tree listing is checked through the tree id by the oracle; here only index ops
             want_err = bool(ex.get("giterr"))
